@@ -208,6 +208,18 @@ def _do(c, op, ctx):
         return 'keys:' + json.dumps([fp(k) for k in c])
     if name == 'reversed':
         return 'keys:' + json.dumps([fp(k) for k in reversed(c)])
+    if name == 'iter_mixed':
+        # a loop over the cache whose body calls the cache again (the usual way of using an iterator): take some keys, make a
+        # call that waits for the write lock if it has to, go on iterating
+        it = iter(c) if not op.get('reverse') else reversed(c)
+        keys = []
+        for k in it:
+            keys.append(fp(k))
+            if len(keys) == op['take']:
+                inner = run_op(c, op['then'], ctx)
+                if inner[0] != 'ok':
+                    raise RuntimeError('call inside the loop failed: %r' % (inner,))
+        return 'keys:' + json.dumps(keys)
     if name == 'iterkeys':
         return 'keys:' + json.dumps([fp(k) for k in c.iterkeys(reverse=op.get('reverse', False))])
     if name == 'peekitem':
